@@ -107,7 +107,7 @@ def global_state_guard():
 
 
 class World:
-    def __init__(self, spec, faults=None, backend_script=None, record=True, inplace=False):
+    def __init__(self, spec, faults=None, backend_script=None, record=True, inplace=False, log_handler=False):
         self.spec = spec
         self.log = Log()
         self.op_index = -1
@@ -120,6 +120,7 @@ class World:
         self.backend_fired = []
         self.counts = {}  # (kind, name) -> total calls
         self.record = record
+        self.log_handler = log_handler
         # the caller keeps ONE options dictionary and edits it in place between calls (identity preserved across ops)
         self.shared_o = {} if inplace else None
         self.by_thread = None  # thread-sim: {(thread name, kind, name): calls}
@@ -134,7 +135,24 @@ class World:
         prev = rt.CUR
         rt.CUR = self
         try:
-            yield self
+            if self.log_handler:
+                # the user's own LogRequest handler (user code, a fault site like any other): it notes the record and passes
+                # it on to labrea's default handler
+                import re
+
+                import labrea.logging as llog
+
+                default_log = lrt._DEFAULT_HANDLERS[llog.LogRequest]  # (what Request.handle registered: public decorator)
+
+                def handler(request):
+                    m = re.search(r"<Dataset ([^>]+)>", request.msg)
+                    rt.call("loghandler", m.group(1).split(".")[-1] if m else "log")
+                    return default_log(request)
+
+                with lrt.handle(llog.LogRequest, handler):
+                    yield self
+            else:
+                yield self
         finally:
             rt.CUR = prev
 
